@@ -21,7 +21,7 @@ def run(chk):
     wa = common.build_wa()
     thorough = chk.tier == "thorough"
     chk.assume("shared subset = the integer kernel of WaInt.tla (functions, typed parameters, return, calls, println, every integer type name and operator); "
-               "control-flow keywords are covered by the C29 .wz renderings only")
+               "control flow (for/if/else/continue/break, short variable declarations, ++ and +=) through the loop programs of WaFlow.tla rendered in both syntaxes")
     types = kernel.ALL_TYPES + ["byte", "rune", "uintptr"] if thorough else ["u16", "int", "uintptr", "byte", "rune"]
     cs = [c for c in kernel.cases_from_tlc(chk, types, "WaInt cases %s" % types) if c["rt"] != "panic"]
     # cases that stop the program (known C01 findings) would hide the rest of a batch: leave them to C01
@@ -73,6 +73,7 @@ def run(chk):
             if norm(g1) != norm(g2):
                 chk.report("C09:const-differs:%s:%s" % (c["t"], kernel.OPNAME.get(c["op"], c["op"])),
                            "%s prints %s in .wa and %s in .wz" % (kernel.const_expr(c, False), g1.strip(), g2.strip()), {"case": c, "wa": g1, "wz": g2})
+    n += flows(chk, wa, thorough)
     chk.add("evaluations", n)
     chk.cov["distinct_nontrivial"] = n
     chk.cov["rule"] = "one evaluation = one (type, operator, operands) case rendered and run in both syntaxes; distinct by construction (TLC enumerates them); all are non-trivial (each reaches code generation and execution)"
@@ -84,3 +85,63 @@ def run(chk):
 
 def replay(chk, path):
     run(chk)
+
+
+WZ_ATOM = {"a=0": "a = 0", "a=1": "a = 1", "a=b": "a = b", "b=a": "b = a", "b=c": "b = c", "c=a": "c = a", "c=b": "c = b", "a++": "a++", "b+=a": "b += a", "c=i": "c = i",
+           "if a==0 {b=7}": "如果 a == 0:\n\t\t\tb = 7\n\t\t完毕", "if b>c {continue}": "如果 b > c:\n\t\t\t继续\n\t\t完毕", "if c>1 {break}": "如果 c > 1:\n\t\t\t跳出\n\t\t完毕",
+           "if a<b {a=5} else {c=9}": "如果 a < b:\n\t\t\ta = 5\n\t\t否则:\n\t\t\tc = 9\n\t\t完毕"}
+
+
+def flows(chk, wa, thorough):
+    """the loop programs of WaFlow.tla in both syntaxes: same output (and the specified one)"""
+    import os
+    import c01
+    res = common.run_tlc("lang", "WaFlow", "flow.cfg" if thorough else "flow.cfg", files=None if thorough else {"flow.cfg": open(os.path.join(common.SPECS, "lang", "flow.cfg")).read().replace("MaxLen = 3", "MaxLen = 2")},
+                         collect_prefix='<<"T"', timeout=3000)
+    chk.tlc(res, "WaFlow (loop programs for the two syntaxes)")
+    ps = [json.loads(common.parse_printt(l, "T")[0]) for l in res.lines]
+    ps.sort(key=lambda p: p["body"])
+    batches = list(common.chunks(list(enumerate(ps)), 250))
+    d = common.subdir("c09f")
+
+    def wa_src(batch):
+        fns = []
+        for i, p in batch:
+            body = "".join("\t\t%s\n" % c01.FLOW_ATOM[a] for a in p["body"])
+            fns.append("func flow%d(n: int) {\n\ta := 1\n\tb := 2\n\tc := 3\n\tfor i := 0; i < n; i++ {\n%s\t}\n\tprintln(a, b, c)\n}\n\n" % (i, body))
+        return "".join(fns) + "func main {\n" + "".join("\tprintln(\"P\", %d)\n\tflow%d(0)\n\tflow%d(1)\n\tflow%d(3)\n" % (i, i, i, i) for i, p in batch) + "}\n"
+
+    def wz_src(batch):
+        fns = []
+        for i, p in batch:
+            body = "".join("\t\t%s\n" % WZ_ATOM[a] for a in p["body"])
+            fns.append("函数·流%d(n: 整型):\n\ta := 1\n\tb := 2\n\tc := 3\n\t循环 i := 0; i < n; i++:\n%s\t完毕\n\t输出(a, b, c)\n完毕\n\n" % (i, body))
+        return "".join(fns) + "函数·主控:\n" + "".join("\t输出(\"P\", %d)\n\t流%d(0)\n\t流%d(1)\n\t流%d(3)\n" % (i, i, i, i) for i, p in batch) + "完毕\n"
+
+    def job(kb):
+        k, batch = kb
+        return batch, kernel.run_program(wa, wa_src(batch), ".wa", k, "c09fa"), kernel.run_program(wa, wz_src(batch), ".wz", k, "c09fz")
+
+    def split(so):
+        got, cur = {}, None
+        for l in so.splitlines():
+            t = l.split()
+            if len(t) == 2 and t[0] == "P":
+                cur = int(t[1])
+                got[cur] = []
+            elif cur is not None:
+                got[cur].append(l.strip())
+        return got
+    n = 0
+    for batch, (rc1, so1, se1, to1), (rc2, so2, se2, to2) in common.parallel(job, list(enumerate(batches))):
+        g1, g2 = split(so1), split(so2)
+        if rc2 != 0 and rc1 == 0:
+            chk.report("C09:wz-fails:flow", "the .wz rendering of loop programs does not run while the .wa rendering does: %s" % (so2 + se2)[-300:], {"wz_program_head": wz_src(batch[:1]), "output": (so2 + se2)[-600:]})
+            continue
+        for i, p in batch:
+            n += 1
+            want = [" ".join(str(v) for v in p["runs"][k]) for k in (0, 1, 2)]
+            if g1.get(i) != g2.get(i):
+                chk.report("C09:flow-differs:%s" % "+".join(sorted(set(p["body"]))).replace(" ", ""), "the loop body [%s] prints %s in .wa and %s in .wz" % ("; ".join(p["body"]), g1.get(i), g2.get(i)),
+                           {"body": p["body"], "wa": g1.get(i), "wz": g2.get(i), "want": want})
+    return n
